@@ -43,8 +43,8 @@ def abs (a : Int) : Int := if a < 0 then -a else a
 
 /-- Python `round(n / d)` for an exact rational `n/d`, `d > 0`: round half to even. -/
 def roundHalfEvenDiv (n d : Int) : Int :=
-  let q := Int.fdiv n d
-  let r := Int.fmod n d
+  let q := n / d
+  let r := n % d
   if 2 * r < d then q
   else if 2 * r > d then q + 1
   else if q % 2 = 0 then q else q + 1
@@ -131,4 +131,20 @@ theorem fdiv_pos_eq_ediv (a b : Int) (hb : 0 < b) : Int.fdiv a b = a / b :=
 theorem fmod_pos_eq_emod (a b : Int) (hb : 0 < b) : Int.fmod a b = a % b :=
   Int.fmod_eq_emod_of_nonneg a (by omega)
 
+end Py
+
+namespace Py
+/-- for a negative divisor the floor remainder lies in `(b, 0]` -/
+theorem fmod_neg_bounds (a : Int) {b : Int} (hb : b < 0) : b < Int.fmod a b ∧ Int.fmod a b ≤ 0 := by
+  rw [Int.fmod_eq_emod]
+  have h1 : 0 ≤ a % b := Int.emod_nonneg a (by omega)
+  have h2 : a % b < -b := by
+    have := Int.emod_lt_of_pos a (show (0:Int) < -b by omega)
+    rwa [Int.emod_neg] at this
+  by_cases hd : b ∣ a
+  · have : a % b = 0 := Int.emod_eq_zero_of_dvd hd
+    simp only [hd, or_true, if_true]; omega
+  · have hne : a % b ≠ 0 := fun h => hd (Int.dvd_of_emod_eq_zero h)
+    have hnb : ¬ (0 ≤ b) := by omega
+    simp only [hnb, hd, or_self, if_false]; omega
 end Py
